@@ -52,16 +52,18 @@ def gen_cfgs(rng, n, maxf):
 
 
 def cases(rng, tier):
+    from props import codecgen as CG
     cs = []
     fixed = [(991, 20, 3, 3, 4), (1, 1, 1, 1, 1), (100, 8, 1, 1, 1), (64, 8, 8, 1, 8), (1000, 24, 7, 2, 4), (17, 16, 2, 4, 4), (129, 64, 3, 8, 8)]
     cfgs = fixed + gen_cfgs(rng, 250 if tier == "quick" else 2500, 1500 if tier == "quick" else 6000)
-    for (f, t, z, nsub, al) in cfgs:
-        d = pos_data(f)
+    for n_, (f, t, z, nsub, al) in enumerate(cfgs):
+        # mostly a position code (any misplaced byte is visible); every eighth object has repeating contents
+        # (zero-filled, constant, periodic with the block length: adjacent blocks identical)
+        d = CG.structured_data(rng, f, t, z) if n_ % 8 == 7 else pos_data(f)
         cs.append(C.Case("layout_packets", [f, t, z, nsub, al] + d))
         cs.append(C.Case("layout_roundtrip", [f, t, z, nsub, al, rng.below(50)] + d))
     # the decoder must invert the layout also for symbols it REBUILDS (lost source symbols, N > 1), on both
     # solver paths: with little overhead (standard path) and with >= H symbols of overhead in one call (binary path)
-    from props import codecgen as CG
     for _ in range(12 if tier == "quick" else 120):
         al = rng.choice([1, 2, 4])
         q = rng.choice([3, 5, 7])
